@@ -25,7 +25,7 @@ LIMIT = 256000
 SLACK = 64 * 1024
 RULE = ("one run = one (enc, serialisation, sender implementation) configuration with 4-8 seeded cases: plaintext lengths at "
         "limit-2..limit+2, limit+258/+259, 300,000 and far below, of compressibility class constant / periodic / random, raw "
-        "DEFLATE at levels 0-9, zlib-wrapped streams and streams cut before their final block, and bombs of 64-512 MiB logical size (constant and periodic) under a "
+        "DEFLATE at levels 0-9, zlib-wrapped streams, streams cut before their final block and several streams back to back (a bomb last), and bombs of 64-512 MiB logical size (constant and periodic) under a "
         "valid tag; a case = one decryption with the zlib output counter and tracemalloc running; distinct = distinct "
         "(run, length, class, framing)")
 ASSUMPTIONS = [
@@ -154,6 +154,8 @@ def run(rng: Rng, tier: str, index: int) -> RunResult:
         n = crng.pick(lens) if crng.chance(0.8) else crng.randrange(0, 400000)
         cases.append(("plain", n, crng.pick(["constant", "periodic", "random", "text"]), crng.pick(["joserfc", "peer-raw", "peer-raw", "peer-zlib-wrapped"])))
     for _ in range(1 if not thorough else 3):
+        cases.append(("plain", crng.pick([LIMIT, LIMIT, LIMIT - 1, LIMIT + 1, 100000, 10]), crng.pick(["periodic", "random", "text", "constant"]), "peer-concatenated"))
+    for _ in range(1 if not thorough else 3):
         cases.append(("plain", crng.pick([1, 20, 1000, 65536, 131072, LIMIT - 1, LIMIT]), crng.pick(["periodic", "random", "text", "constant"]), "peer-truncated"))
     for _ in range(1 if not thorough else 2):
         cases.append(("bomb", crng.pick([64, 64, 128] if not thorough else [64, 128, 256, 512]), crng.pick(["constant", "periodic"]), "peer-raw"))
@@ -183,7 +185,13 @@ def run(rng: Rng, tier: str, index: int) -> RunResult:
 
         def viol(sig, what):
             res.violation(ID, sig, "%s [%s]" % (what, label), dict(repro))
-        if sender == "peer-truncated":
+        if sender == "peer-concatenated":
+            res.fired("concatenated-streams-under-valid-tag")
+            if status == "ok" and len(val) > LIMIT:
+                viol("concatenated-streams:returned-more-than-limit", "concatenated DEFLATE streams returned %d octets" % len(val))
+            elif status == "ok" and len(pt) <= LIMIT and not val.startswith(pt):
+                viol("concatenated-streams:first-plaintext-altered", "concatenated DEFLATE streams returned %d octets that do not begin with the first stream's %d" % (len(val), len(pt)))
+        elif sender == "peer-truncated":
             res.fired("truncated-stream-under-valid-tag")
             if status == "ok" and val != pt:
                 viol("truncated-stream:returned-%s" % ("prefix" if pt.startswith(val) else "other-data"),
@@ -258,6 +266,18 @@ def make_token(prng, kind, n, cls, sender, alg, enc, form, pub, jkey):
         return tok, pt, logical
     if sender == "peer-zlib-wrapped":
         stream = zlib.compress(pt)
+    elif sender == "peer-concatenated":
+        # several complete raw streams back to back: whatever the receiver makes of what follows the first stream's end,
+        # it never materialises or returns more than the limit; `n` is the total of the leading streams, a bomb follows
+        parts = [n] if prng.chance(0.5) or n < 2 else [n // 2 - prng.randrange(0, 3), n - (n // 2 - prng.randrange(0, 3))]
+        first = gen_plain(prng.sub("first"), parts[0], cls)
+        stream = rjwe.deflate_raw(first, 6)
+        for extra in parts[1:]:
+            stream += rjwe.deflate_raw(gen_plain(prng.sub("more"), max(0, extra), cls), 6)
+        tail = prng.pick([1, 300, 3_000_000])
+        stream += rjwe.deflate_raw(b"\x00" * tail, 9)
+        pt = first
+        logical = sum(max(0, x) for x in parts) + tail
     elif sender == "peer-truncated":
         # a stream that stops before its final block (the peer's writer died, a length field cut it): what comes back,
         # if anything, must be the whole plaintext - never a silent prefix
@@ -292,7 +312,12 @@ def replay(repro: dict):
     out = []
     if repro["sender"] == "joserfc" and framing_problem(tok, key, pt):
         out.append(("compress:not-raw-deflate", framing_problem(tok, key, pt)))
-    if repro["sender"] == "peer-truncated":
+    if repro["sender"] == "peer-concatenated":
+        if status == "ok" and len(val) > LIMIT:
+            out.append(("concatenated-streams:returned-more-than-limit", "returned %d" % len(val)))
+        elif status == "ok" and len(pt) <= LIMIT and not val.startswith(pt):
+            out.append(("concatenated-streams:first-plaintext-altered", "returned %d" % len(val)))
+    elif repro["sender"] == "peer-truncated":
         if status == "ok" and val != pt:
             out.append(("truncated-stream:returned-%s" % ("prefix" if pt.startswith(val) else "other-data"), "returned %d of %d" % (len(val), len(pt))))
     elif logical <= LIMIT:
